@@ -19,7 +19,10 @@ import (
 	"k8s.io/apimachinery/pkg/runtime/schema"
 
 	"github.com/projectcalico/calico/libcalico-go/lib/backend/api"
+	apiv3 "github.com/projectcalico/api/pkg/apis/projectcalico/v3"
+
 	"github.com/projectcalico/calico/libcalico-go/lib/backend/model"
+	"github.com/projectcalico/calico/libcalico-go/lib/backend/syncersv1/updateprocessors"
 	"github.com/projectcalico/calico/libcalico-go/lib/backend/watchersyncer"
 	cerrors "github.com/projectcalico/calico/libcalico-go/lib/errors"
 
@@ -33,6 +36,10 @@ type kvT struct {
 
 func mkKey(k int) model.Key { return model.ResourceKey{Kind: "IPPool", Name: "k" + strconv.Itoa(k)} }
 func keyID(k model.Key) int {
+	if pk, ok := k.(model.IPPoolKey); ok {
+		// v1 IPPool key produced by the real IPPool update processor: 10.<g>.0.0/16 -> 300+g
+		return 300 + int(pk.CIDR.Addr().As4()[1])
+	}
 	n, err := strconv.Atoi(strings.TrimPrefix(k.(model.ResourceKey).Name, "k"))
 	if err != nil {
 		panic(err)
@@ -49,10 +56,21 @@ func revID(s string) int {
 	}
 	return n
 }
+// poolValues: raw values are real v3 IPPools (mode 2: the real conflict-resolving IPPool update processor); the
+// pool's CIDR, hence its v1 key, is 10.<rev%3>.0.0/16.
+var poolValues bool
+
 func mkKVP(kv kvT) *model.KVPair {
 	p := &model.KVPair{Key: mkKey(kv.key), Revision: strconv.Itoa(kv.rev)}
 	if !kv.del {
-		p.Value = "v" + strconv.Itoa(kv.rev)
+		if poolValues {
+			pool := apiv3.NewIPPool()
+			pool.Name = "k" + strconv.Itoa(kv.key)
+			pool.Spec.CIDR = fmt.Sprintf("10.%d.0.0/16", kv.rev%3)
+			p.Value = pool
+		} else {
+			p.Value = "v" + strconv.Itoa(kv.rev)
+		}
 	}
 	return p
 }
@@ -97,6 +115,48 @@ func (processor) Process(p *model.KVPair) ([]*model.KVPair, error) {
 	return res, nil
 }
 func (processor) OnSyncerStarting() {}
+
+// recorder wraps the processor under test and counts OnSyncerStarting calls (compared with the model op for op).
+type recorder struct {
+	inner  watchersyncer.SyncerUpdateProcessor
+	resets int
+}
+
+func (r *recorder) Process(p *model.KVPair) ([]*model.KVPair, error) { return r.inner.Process(p) }
+func (r *recorder) OnSyncerStarting()                                 { r.resets++; r.inner.OnSyncerStarting() }
+
+// newProcessor returns a FRESH processor of the kind the case uses (nil for mode 0).
+func newProcessor(mode int) watchersyncer.SyncerUpdateProcessor {
+	switch mode {
+	case 0:
+		return nil
+	case 1:
+		return processor{}
+	default:
+		return updateprocessors.NewIPPoolUpdateProcessor()
+	}
+}
+
+// freshConvert is the property's reference: the datastore contents `kvs` (a listed snapshot followed by the watch
+// events processed since) converted by a FRESH processor, folded into key -> revision.
+func freshConvert(mode int, kvs []kvT) map[int]int {
+	out := map[int]int{}
+	p := newProcessor(mode)
+	for _, kv := range kvs {
+		res := []*model.KVPair{mkKVP(kv)}
+		if p != nil {
+			res, _ = p.Process(mkKVP(kv))
+		}
+		for _, r := range res {
+			if r.Value == nil {
+				delete(out, keyID(r.Key))
+			} else {
+				out[keyID(r.Key)] = revID(r.Revision)
+			}
+		}
+	}
+	return out
+}
 
 // ---- scripted client -----------------------------------------------------------------------
 
@@ -243,6 +303,8 @@ type state struct {
 	down       map[int]int // downstream view key -> rev (fold of OnUpdates)
 	lastStatus int
 	expect     []map[int]int // per cache: what its part of the datastore (after conversion) holds
+	recs       []*recorder   // per cache: the recording wrapper around its update processor (nil in mode 0)
+	since      [][]kvT       // per cache: the last successfully listed snapshot followed by the events processed since
 	listed     []bool
 	cacheSt    []int
 	trace      []string
@@ -283,22 +345,6 @@ func (s *state) SyncFailed(err error) { s.cbs = append(s.cbs, tok{s: "F"}) }
 
 // ---- exec ------------------------------------------------------------------------------------------
 
-func (s *state) convert(kv kvT) []kvT {
-	if s.proc == 0 {
-		return []kvT{kv}
-	}
-	out, _ := conv1(kv)
-	return out
-}
-
-func applyKV(m map[int]int, kv kvT) {
-	if kv.del {
-		delete(m, kv.key)
-	} else {
-		m[kv.key] = kv.rev
-	}
-}
-
 func (s *state) finish(cache int, rs []watchersyncer.VerifResult) string {
 	var rt []tok
 	for _, r := range rs {
@@ -323,7 +369,12 @@ func (s *state) finish(cache int, rs []watchersyncer.VerifResult) string {
 	}
 	s.cbs = nil
 	s.v.Process(rs)
-	return "R: " + canon(rt) + " C: " + canon(s.cbs)
+	resets := 0
+	if s.recs[cache] != nil {
+		resets = s.recs[cache].resets
+		s.recs[cache].resets = 0
+	}
+	return "R: " + canon(rt) + " C: " + canon(s.cbs) + " N=" + strconv.Itoa(resets)
 }
 
 func exec(h *rt.H, s *state, op string) string {
@@ -335,6 +386,7 @@ func exec(h *rt.H, s *state, op string) string {
 		p, _ := strconv.Atoi(w[2])
 		sd, _ := strconv.Atoi(w[3])
 		*s = state{h: h, n: n, proc: p, down: map[int]int{}, trace: []string{op}}
+		poolValues = p >= 2
 		clients := map[string]api.Client{}
 		var rts []watchersyncer.ResourceType
 		for i := 0; i < n; i++ {
@@ -344,9 +396,14 @@ func exec(h *rt.H, s *state, op string) string {
 			clients[id] = c
 			r := watchersyncer.ResourceType{ListInterface: model.ResourceListOptions{Kind: "IPPool"}, ClientID: id, SendDeletesOnConnFail: sd != 0}
 			if p != 0 {
-				r.UpdateProcessor = processor{}
+				rec := &recorder{inner: newProcessor(p)}
+				r.UpdateProcessor = rec
+				s.recs = append(s.recs, rec)
+			} else {
+				s.recs = append(s.recs, nil)
 			}
 			rts = append(rts, r)
+			s.since = append(s.since, nil)
 			s.expect = append(s.expect, map[int]int{})
 			s.listed = append(s.listed, false)
 			s.cacheSt = append(s.cacheSt, 0)
@@ -386,14 +443,9 @@ func exec(h *rt.H, s *state, op string) string {
 		evs := append([]string(nil), sc.evs...)
 		rs := s.v.Call(i)
 		out := s.finish(i, rs)
-		// ---- property oracle: convergence to the datastore contents after conversion ----
+		// ---- property oracle: convergence to the datastore's current contents, converted by a FRESH processor ----
 		if c.lastList != nil {
-			s.expect[i] = map[int]int{}
-			for _, kv := range c.lastList.kvs {
-				for _, ckv := range s.convert(kv) {
-					applyKV(s.expect[i], ckv)
-				}
-			}
+			s.since[i] = append([]kvT(nil), c.lastList.kvs...)
 		}
 		for _, e := range evs {
 			f := strings.Split(e, ":")
@@ -403,11 +455,10 @@ func exec(h *rt.H, s *state, op string) string {
 			if f[1] == "up" || f[1] == "del" {
 				kv := parseKV(f[2])
 				kv.del = f[1] == "del"
-				for _, ckv := range s.convert(kv) {
-					applyKV(s.expect[i], ckv)
-				}
+				s.since[i] = append(s.since[i], kv)
 			}
 		}
+		s.expect[i] = freshConvert(s.proc, s.since[i])
 		s.checkConverged()
 		return out
 	case "stop":
@@ -417,6 +468,7 @@ func exec(h *rt.H, s *state, op string) string {
 		}
 		out := s.finish(i, s.v.StopCache(i))
 		s.expect[i] = map[int]int{}
+		s.since[i] = nil
 		s.checkConverged()
 		return out
 	case "dump":
@@ -431,7 +483,16 @@ func exec(h *rt.H, s *state, op string) string {
 			byID := map[int]string{}
 			for k, r := range m {
 				// key string of a ResourceKey: Widget(k<id>)
-				id, _ := strconv.Atoi(strings.TrimSuffix(k[strings.Index(k, "(k")+2:], ")"))
+				var id int
+				if i := strings.Index(k, "(k"); i >= 0 {
+					id, _ = strconv.Atoi(strings.TrimSuffix(k[i+2:], ")"))
+				} else if i := strings.Index(k, "10."); i >= 0 { // v1 IPPool key: ...10.<g>.0.0/16...
+					var g int
+					fmt.Sscanf(k[i:], "10.%d.", &g)
+					id = 300 + g
+				} else {
+					panic("cannot map cache key " + k)
+				}
 				ids = append(ids, id)
 				byID[id] = r
 			}
@@ -469,7 +530,11 @@ func (s *state) checkConverged() {
 	}
 	s.h.Count("oracle:converged-checked")
 	if fmt.Sprint(s.down) != fmt.Sprint(s.expect[0]) {
-		s.fail("not-converged", "after a completed list and the watch events that followed, the accumulated update stream differs from the datastore contents after conversion",
+		sig := "not-converged"
+		if s.proc >= 2 {
+			sig = "converter-stale-state"
+		}
+		s.fail(sig, "after a completed list and the watch events that followed, the accumulated update stream differs from the datastore contents after conversion",
 			map[string]any{"downstream": fmt.Sprint(s.down), "datastore": fmt.Sprint(s.expect[0])})
 	}
 }
@@ -555,13 +620,71 @@ func (g *gen) call(n int) string {
 	return op
 }
 
+// relist: TWO successful Lists inside one call (the Watch after the first one fails in a way that forces a
+// re-List) with a relevant change in between: two resources sharing a v1 index (rev%3) of which the primary
+// vanishes, or a resource deleted and re-created under another index.
+func (g *gen) relist(n int) string {
+	a := g.h.Intn(5)
+	b := a + 1 + g.h.Intn(5-a)
+	g.rev++
+	r1 := g.rev
+	g.rev++
+	for g.rev%3 != r1%3 {
+		g.rev++
+	}
+	r2 := g.rev
+	g.revs[a], g.revs[b] = r1, r2
+	first := fmt.Sprintf("%d.%d.0/%d.%d.0", a, r1, b, r2)
+	if g.h.Chance(0.4) {
+		first += "/" + g.kv(false)
+	}
+	g.rev++
+	op := fmt.Sprintf("call %d L:ok:%d:%s", g.h.Intn(n), g.rev, first)
+	switch g.h.Intn(4) {
+	case 0:
+		op += " W:ex"
+	case 1:
+		op += " W:ns"
+	case 2:
+		op += " W:ot W:ot W:ot W:ot W:ot"
+	default:
+		op += " W:cr1"
+	}
+	var second string
+	switch g.h.Intn(4) {
+	case 0: // the primary vanished, the secondary is unchanged
+		second = fmt.Sprintf("%d.%d.0", b, r2)
+	case 1: // the secondary vanished
+		second = fmt.Sprintf("%d.%d.0", a, r1)
+	case 2: // the primary was deleted and re-created (new revision, usually another index)
+		g.rev++
+		g.revs[a] = g.rev
+		second = fmt.Sprintf("%d.%d.0/%d.%d.0", a, g.rev, b, r2)
+	default: // both still there, listed in the other order
+		second = fmt.Sprintf("%d.%d.0/%d.%d.0", b, r2, a, r1)
+	}
+	g.rev++
+	op += fmt.Sprintf(" F:%d:%s", g.rev, second)
+	for i := g.h.Intn(3); i > 0; i-- {
+		if g.h.Bool() {
+			op += " E:up:" + g.kv(false)
+		} else {
+			op += " E:del:" + g.kv(false)
+		}
+	}
+	return op
+}
+
 func genCase(h *rt.H) []string {
 	g := &gen{h: h, revs: map[int]int{}}
 	n := rt.Pick(h, []int{1, 1, 1, 2, 3})
-	ops := []string{fmt.Sprintf("new %d %d %d", n, h.Intn(2), h.Intn(2))}
+	ops := []string{fmt.Sprintf("new %d %d %d", n, h.Intn(3), h.Intn(2))}
 	for i := 3 + h.Intn(12); i > 0; i-- {
 		if h.Chance(0.06) {
 			ops = append(ops, fmt.Sprintf("stop %d", h.Intn(n)))
+		} else if h.Chance(0.25) {
+			ops = append(ops, g.relist(n))
+			h.Count("gen:relist")
 		} else {
 			ops = append(ops, g.call(n))
 		}
@@ -579,7 +702,7 @@ func main() {
 	watchersyncer.ListRetryInterval = 0
 	watchersyncer.WatchPollInterval = 0
 	watchersyncer.MissingAPIRetryTime = 0
-	h.Rule = "case = one watcherSyncer with 1..3 watcher caches (with/without an UpdateProcessor, with/without SendDeletesOnConnFail) + ops over " +
+	h.Rule = "case = one watcherSyncer with 1..3 watcher caches (no UpdateProcessor / a stateless fan-out processor / the REAL stateful conflict-resolving IPPool processor, each behind a recorder of OnSyncerStarting calls; with/without SendDeletesOnConnFail) + ops over " +
 		"{call i script = one resyncAndLoopReadingFromWatcher with scripted List outcomes (ok/notfound/expired/other±timeout), Watch-create outcomes " +
 		"(expired/conn-refused±timeout/not-supported/other) and watch events (add/mod/delete/bookmark/expired/error/unknown), stop i, dump i}; " +
 		"distinct = distinct op sequence; non-trivial = a call that consumed >=1 failing outcome or ended a watch with an error event"
